@@ -417,6 +417,33 @@ def level_advance(ctx, p):
     okf = len(first) >= 1 and any(t_ in first[0][1] for t_ in ("func(obj, unmasked_grid", "func(obj, self.mask.derive_grid.unmasked"))   # (possibly already wrapped: Array2D(values=func(..), mask=self.mask).native)
     tail = [n for n in wire.main_line(m) if isinstance(n, ast.Assign) and n.lineno > loop.end_lineno and isinstance(n.value, ast.Call) and norm_text(n.value.func).endswith("array_at_sub_size_from")]
     okl = len(tail) == 1 and norm_text(wire.kw(tail[0].value).get("sub_size")) == "self.sub_steps[-1]" and norm_text(wire.kw(tail[0].value).get("mask")) == lower_m
+    # what is returned: the pixels resolved at the earlier levels plus the last level's values for the rest (the two are disjoint: each is zero where the other is set)
+    def block_of(stmts):
+        if any(x is loop for x in stmts):
+            return stmts
+        for st in stmts:
+            for fld in ("body", "orelse", "finalbody"):
+                sub = getattr(st, fld, None)
+                if isinstance(sub, list) and sub and isinstance(sub[0], ast.stmt):
+                    r_ = block_of(sub)
+                    if r_ is not None:
+                        return r_
+        return None
+    blk = block_of(m.node.body) or []
+    rets = [r for k_, r in enumerate(blk) if isinstance(r, ast.Return) and k_ > [i_ for i_, x in enumerate(blk) if x is loop][0]]   # (the return that follows the level loop; the exits inside the loop return the accumulated array once nothing is left unresolved)
+    okr = False
+    detr = ""
+    if len(rets) == 1 and tail and isinstance(rets[0].value, ast.Call):
+        bk = wire.kw(rets[0].value, (p.resolve_call(rets[0].value, m) or [None])[0])
+        vals = bk.get("values")
+        vv = wire.inline_locals(m, vals) if vals is not None else None
+        detr = norm_text(vv)[:100] if vv is not None else ""
+        tail_name = norm_text(tail[0].targets[0])
+        acc = k2.get("iterated_array")
+        okr = isinstance(vv, ast.BinOp) and isinstance(vv.op, ast.Add) and {norm_text(wire.strip_np_array(vv.left)), norm_text(wire.strip_np_array(vv.right))} == {acc, tail_name} \
+            and norm_text(bk.get("mask")) == "self.mask"
+    ctx.ob(rule, m.key + ":result", okr, where=m, node=rets[0] if rets else m.node, construct=detr,
+           message="the result must be the array accumulated over the levels PLUS the last level's evaluation of the still-unresolved pixels, on the sampler's mask")
     ctx.ob(rule, m.key + ":first-last", bool(okf) and okl, where=m, node=tail[0] if tail else m.node, construct=f"first {first[:2]}; last {norm_text(tail[0].value)[:120] if tail else None}",
            message="the schedule must start from the sub-size-1 evaluation and end by filling the still-unresolved pixels at the last sub size")
 
